@@ -476,4 +476,172 @@ Proof.
     destruct w; try contradiction; tauto.
 Qed.
 
+
+(* ---------- the forwarder without a select on a send gets stuck ---------- *)
+
+Definition stuck (s : st) : Prop := cancelled s = true /\ fwd_done s = false /\ ~ lib_enabled s.
+
+(* event loop: take an event, the consumer stops, cancel *)
+Theorem stuck_without_loop_select : sel SLoop = false -> forall e,
+  exists s, reach (init FrontOk SetChan [e]) s /\ stuck s.
+Proof.
+  intros Hs e.
+  destruct (exec_trace ev res exec sel cap (init FrontOk SetChan [e]) [LSetup; LEmit; LTake; LExec; LStop; LCancel]) as [s|] eqn:E;
+    [|discriminate E].
+  exists s. split; [exists [LSetup; LEmit; LTake; LExec; LStop; LCancel]; apply exec_trace_run; exact E|].
+  cbn in E. inversion E; subst s; clear E. split; [reflexivity|]. split; [reflexivity|].
+  intros (l & s' & L & H). unfold SubscriptionLts.step in H.
+  destruct l; try discriminate L; cbn in H; try discriminate H. rewrite Hs in H. discriminate H.
+Qed.
+
+(* error path: the Subscribe resolver fails, the consumer never reads, cancel *)
+Theorem stuck_without_error_select : sel SErr = false -> forall es,
+  exists s, reach (init FrontOk SetErr es) s /\ stuck s.
+Proof.
+  intros Hs es.
+  destruct (exec_trace ev res exec sel cap (init FrontOk SetErr es) [LSetup; LStop; LCancel]) as [s|] eqn:E;
+    [|discriminate E].
+  exists s. split; [exists [LSetup; LStop; LCancel]; apply exec_trace_run; exact E|].
+  cbn in E. inversion E; subst s; clear E. split; [reflexivity|]. split; [reflexivity|].
+  intros (l & s' & L & H). unfold SubscriptionLts.step in H.
+  destruct l; try discriminate L; cbn in H; try discriminate H. rewrite Hs in H. discriminate H.
+Qed.
+
+(* the code before fix C15-2: a Subscribe resolver panicking with a non-error value ends the
+   goroutine silently, the consumer sees the close without any result and without cancellation *)
+Theorem silent_exit_delivers_nothing : forall es,
+  exists s, reach (init FrontOk SetSilent es) s /\ seen_closed s = true /\ out s = [] /\ cancelled s = false.
+Proof.
+  intros es.
+  destruct (exec_trace ev res exec sel cap (init FrontOk SetSilent es) [LSetup; LCloseRes; LObsClosed]) as [s|] eqn:E;
+    [|discriminate E].
+  exists s. split; [exists [LSetup; LCloseRes; LObsClosed]; apply exec_trace_run; exact E|].
+  cbn in E. inversion E; subst s; clear E. repeat split; reflexivity.
+Qed.
+
+(* a one-shot channel without buffer would block the caller of Subscribe before it returns *)
+Theorem stuck_without_buffer : cap = 0 -> forall su es,
+  ~ lib_enabled (init FrontFail su es) /\ fwd_done (init FrontFail su es) = false.
+Proof.
+  intros Hc su es. split; [|reflexivity].
+  intros (l & s' & L & H). unfold SubscriptionLts.step in H.
+  destruct l; try discriminate L; cbn in H; try discriminate H. rewrite Hc in H. discriminate H.
+Qed.
+
+
+(* ---------- observed traces ---------- *)
+
+Variable res_eqb : res -> res -> bool.
+Variable ev_eqb : ev -> ev -> bool.
+Hypothesis res_eqb_eq : forall a b, res_eqb a b = true -> a = b.
+
+Notation orun := (orun ev res exec sel cap).
+Notation obs_run := (obs_run ev res exec sel cap res_eqb ev_eqb).
+Notation lib_closure := (lib_closure ev res exec sel cap res_eqb ev_eqb).
+Notation dedup := (dedup ev res res_eqb ev_eqb).
+
+Lemma dres_eqb_eq : forall a b, dres_eqb res res_eqb a b = true -> a = b.
+Proof. intros [x| |] [y| |] H; try discriminate H; try reflexivity. cbn in H. f_equal. apply res_eqb_eq. exact H. Qed.
+
+Lemma last_is_sound : forall l v, last_is res res_eqb l v = true -> exists pre, l = pre ++ [v].
+Proof.
+  intros l v H. unfold last_is in H. destruct (rev l) as [|x r] eqn:E; [discriminate H|].
+  apply dres_eqb_eq in H. subst x. exists (rev r). rewrite <- (rev_involutive l), E. reflexivity.
+Qed.
+
+Lemma orun_lib_run : forall s ls s1, run s ls s1 -> Forall (fun l => lib l = true) ls ->
+  forall os s2, orun s1 os s2 -> orun s os s2.
+Proof.
+  intros s ls s1 R. induction R as [|s l s1 ls s2' Hs R IH]; intros F os s2 O; [exact O|].
+  inversion F as [|? ? Hl F']; subst. eapply or_lib; [exact Hl|exact Hs|]. apply IH; assumption.
+Qed.
+
+Lemma orun_is_run : forall s os s', orun s os s' -> exists ls, run s ls s'.
+Proof.
+  intros s os s' O. induction O as [s|s l s1 os s2 Hl Hs O (ls & R)|s l s1 o os s2 Hs Sh O (ls & R)|s os s2 D O (ls & R)].
+  - exists []. apply run_nil.
+  - exists (l :: ls). eapply run_cons; eauto.
+  - exists (l :: ls). eapply run_cons; eauto.
+  - exists ls. exact R.
+Qed.
+
+Lemma in_opt_list : forall A (o : option A) x, In x (opt_list o) -> o = Some x.
+Proof. intros A [y|] x H; cbn in H; [destruct H as [H|[]]; congruence|contradiction]. Qed.
+
+Lemma dedup_incl : forall l x, In x (dedup l) -> In x l.
+Proof.
+  induction l as [|y l IH]; intros x H; cbn in H; [exact H|].
+  destruct (existsb _ l); [right; apply IH; exact H|].
+  destruct H as [H|H]; [left; exact H|right; apply IH; exact H].
+Qed.
+
+Lemma lib_closure_sound : forall fuel ss s', In s' (lib_closure fuel ss) ->
+  exists s ls, In s ss /\ run s ls s' /\ Forall (fun l => lib l = true) ls.
+Proof.
+  induction fuel as [|f IH]; intros ss s' H; cbn in H.
+  - exists s', []. split; [exact H|split; [apply run_nil|constructor]].
+  - apply in_app_or in H. destruct H as [H|H].
+    + exists s', []. split; [exact H|split; [apply run_nil|constructor]].
+    + destruct (IH _ _ H) as (s1 & ls & I1 & R & F). apply dedup_incl in I1. unfold lib_round in I1.
+      apply in_flat_map in I1. destruct I1 as (s & Is & I1). apply in_flat_map in I1. destruct I1 as (l & Il & I1).
+      apply in_opt_list in I1. exists s, (l :: ls). split; [exact Is|]. split; [eapply run_cons; [exact I1|exact R]|].
+      constructor; [apply lib_labels_lib; exact Il|exact F].
+Qed.
+
+Lemma obs_step_sound : forall s o s1, In s1 (obs_step ev res exec sel cap res_eqb s o) ->
+  forall os s2, orun s1 os s2 -> orun s (o :: os) s2.
+Proof.
+  intros s o s1 H os s2 O. destruct o; cbn [obs_step] in H.
+  - apply in_opt_list in H. eapply or_vis; [exact H|exact I|exact O].
+  - apply in_opt_list in H. eapply or_vis; [exact H|exact I|exact O].
+  - apply in_opt_list in H. eapply or_vis; [exact H|exact I|exact O].
+  - apply in_opt_list in H. eapply or_vis; [exact H|exact I|exact O].
+  - apply filter_In in H. destruct H as (H & L). apply last_is_sound in L. apply in_app_or in H. destruct H as [H|H];
+      apply in_opt_list in H; (eapply or_vis; [exact H|exact L|exact O]).
+  - apply in_opt_list in H. eapply or_vis; [exact H|exact I|exact O].
+  - destruct (fwd_done s) eqn:D; [|contradiction]. destruct H as [H|[]]. subst s1. apply or_quiet; assumption.
+Qed.
+
+Theorem obs_run_sound : forall os ss s', In s' (obs_run ss os) -> exists s, In s ss /\ orun s os s'.
+Proof.
+  induction os as [|o os IH]; intros ss s' H; cbn [SubscriptionLts.obs_run] in H.
+  - exists s'. split; [exact H|apply or_nil].
+  - destruct (IH _ _ H) as (s1 & I1 & O). unfold obs_after in I1. apply dedup_incl in I1. apply in_flat_map in I1.
+    destruct I1 as (sc & Ic & I1). apply dedup_incl in Ic. destruct (lib_closure_sound _ _ _ Ic) as (s & ls & Is & R & F).
+    exists s. split; [exact Is|]. eapply orun_lib_run; [exact R|exact F|]. eapply obs_step_sound; eauto.
+Qed.
+
+Theorem accepts_obs_sound : forall s0 os, accepts_obs ev res exec sel cap res_eqb ev_eqb s0 os = true ->
+  exists s, orun s0 os s.
+Proof.
+  intros s0 os H. unfold accepts_obs in H. destruct (obs_run [s0] os) as [|s' r] eqn:E; [discriminate H|].
+  destruct (obs_run_sound os [s0] s') as (s & Is & O); [rewrite E; left; reflexivity|].
+  destruct Is as [Is|[]]. subst s. exists s'. exact O.
+Qed.
+
+(* what the consumer has received is exactly the values of the ORecv observations, in order *)
+Fixpoint recvd (os : list (obs res)) : list (dres res) :=
+  match os with
+  | [] => []
+  | ORecv v :: r => v :: recvd r
+  | _ :: r => recvd r
+  end.
+
+Lemma out_lib_step : forall s l s', step s l s' -> lib l = true -> out s' = out s.
+Proof. intros s l s' H L. destruct l; try discriminate L; inv_step H; reflexivity. Qed.
+
+Lemma orun_out : forall s os s', orun s os s' -> out s' = out s ++ recvd os.
+Proof.
+  intros s os s' O. induction O as [s|s l s1 os s2 Hl Hs O IH|s l s1 o os s2 Hs Sh O IH|s os s2 D O IH].
+  - cbn. rewrite app_nil_r. reflexivity.
+  - rewrite IH. rewrite (out_lib_step _ _ _ Hs Hl). reflexivity.
+  - rewrite IH. destruct l, o; cbn in Sh; try contradiction; cbn [recvd];
+      try (inv_step Hs; red_proj; reflexivity).
+    + destruct Sh as (pre & E). inv_step Hs; red_proj. apply app_inj_tail in E. destruct E as (_ & E). subst.
+      rewrite <- app_assoc. reflexivity.
+    + destruct Sh as (pre & E). inv_step Hs; red_proj. apply app_inj_tail in E. destruct E as (_ & E). subst.
+      rewrite <- app_assoc. reflexivity.
+  - exact IH.
+Qed.
+
 End Proofs.
